@@ -193,6 +193,17 @@ Proof.
   rewrite Hc. reflexivity.
 Qed.
 
+(* the same for shapes with a zero extent: exact whenever the two closed-form strides are representable *)
+Theorem tr_stride_value : forall l t ne, wf_ity t -> rank ne = 2%nat ->
+  0 <= spec_stride l (extents_list t ne) 0 <= imax t -> 0 <= spec_stride l (extents_list t ne) 1 <= imax t ->
+  tr_stride l t ne 0 = Ok (spec_stride l (extents_list t ne) 1)
+  /\ tr_stride l t ne 1 = Ok (spec_stride l (extents_list t ne) 0).
+Proof.
+  intros l t ne Hwf Hr B0 B1. unfold tr_stride. cbn [Nat.eqb].
+  rewrite !lay_stride_value by (try assumption; lia). cbn [rbind].
+  rewrite !to_size_type_id by (try assumption; lia). split; reflexivity.
+Qed.
+
 (** * submdspan_extents with full_extent / index slices *)
 Lemma sub_keep_keep_full : forall (A : Type) sl (l : list A), sub_keep sl l = keep_full sl l.
 Proof. intros A. induction sl as [|s sr IH]; intros l; destruct l; cbn; try reflexivity; destruct s; rewrite ?IH; reflexivity. Qed.
